@@ -788,6 +788,17 @@ class Interp:
         ty = self.ty_of(base)
         if isinstance(ty, tuple) and ty[0] == "cls" and ty[1] in self.p.classes:
             qual = ty[1]
+            if name == "__dict__" and isinstance(base, Sym):
+                # the instance dict of a symbolic repo object: the attributes its constructors assign, each with
+                # the value the attribute has on this path (exact keys: __getstate__ / encoders iterate and edit it)
+                names = self.ctor_attrs(qual)
+                if names:
+                    ents = {}
+                    for a in names:
+                        loc = (base.key(), "a", a)
+                        at, nullable = self.attr_type(ty, a)
+                        ents[a] = st.mem[loc] if loc in st.mem else Sym(("attr", base.key(), a), at, nullable)
+                    return outs + [("val", st, DictV(ents, True, label=f"__dict__:{base.key()!r}"))]
             prop = self.p.find_prop(qual, name)
             if prop is not None and "get" in prop:
                 return outs + self.call_func(st, BoundV(base, prop["get"]), [], {}, node)
@@ -835,6 +846,26 @@ class Interp:
             return outs + [("val", st, st.mem[loc])]
         # builtin / external typed receivers: methods come from the external model
         return outs + [("val", st, self.ext.ext_attr(self, st, base, name, node))]
+
+    def ctor_attrs(self, qual: str) -> List[str]:
+        """Instance attributes assigned (`self.x = ...`) by the __init__ methods along the MRO of a repo class,
+        in assignment order."""
+        cache = self.__dict__.setdefault("_ctor_attrs", {})
+        if qual not in cache:
+            names: List[str] = []
+            for c in reversed([c for c in self.p.mro(qual) if not c.startswith("ext:")]):
+                init = self.p.classes[c].methods.get("__init__")
+                if init is None:
+                    continue
+                selfname = init.node.args.args[0].arg if init.node.args.args else "self"
+                for n in ast.walk(init.node):
+                    tgts = n.targets if isinstance(n, ast.Assign) else [n.target] if isinstance(n, (ast.AnnAssign, ast.AugAssign)) else []
+                    for t in tgts:
+                        for tt in (t.elts if isinstance(t, ast.Tuple) else [t]):
+                            if isinstance(tt, ast.Attribute) and isinstance(tt.value, ast.Name) and tt.value.id == selfname and tt.attr not in names:
+                                names.append(tt.attr)
+            cache[qual] = names
+        return cache[qual]
 
     def dyn_prop(self, qual: str, name: str):
         """The property object a repo factory built at class creation (`x = _make_property(...)` in a class
